@@ -62,7 +62,8 @@ def meta(tier):
                 'predefined data blocks, one with two different blocks); per program 6 executions: two images (fill 00 / ff) giving the exact address->byte map, and '
                 'the four formats, each decoded independently, plus two images of the window that starts inside the first multi-byte statement (-s), which must hold the same bytes from there on; the listing rows are also compared with the reference lines '
                 '(each statement once, its address, its bytes, nothing for muted lines); non-trivial = program with a gap, a muted '
-                'byte or a line longer than 6 bytes; states = distinct memory maps',
+                'byte or a line longer than 6 bytes; plus (16-bit) every history up to depth 5 (thorough 6) over {#mute, #unmute, a byte, an include of a plain file, of a file that unmutes, of a file that mutes}: '
+                'mutes are counted across include boundaries in both directions; states = distinct memory maps',
         'bounds': {'alphabet': [R.render_stmt(s) for s in sigma(0, 0xFFF0)], 'depth': 3 if q else 4, 'address_widths': [8, 12, 16, 24, 32],
                    'formats': FORMATS},
         'assumptions': ['the compact format cannot state the address of its first data line unless an origin precedes it: the decoder '
@@ -159,36 +160,71 @@ def shard(acc, tier, idx, n):
 
         for h in histories(list(range(NSYM)), depth, idx, n, prefix_ok=ok):
             files = build(h)
-            ref = R.assemble(params, files)
-            if ref.status != 'OK':
-                if ref.status == 'DC':
-                    acc.dc(ref.reason)
-                continue
-            acc.state((bits, tuple(sorted(ref.mem.items()))))
-            text = R.render_files(files)
-            cases = [Case(isa, text, fill=0), Case(isa, text, fill=0xFF)] + [Case(isa, text, pretty=f) for f in FORMATS]
-            multi = [l for l in ref.lines if l.size > 1 and not l.muted]
-            wstart = multi[0].addr + 1 if multi else None          # strictly inside the first multi-byte statement
-            if wstart is not None:
-                cases += [Case(isa, text, fill=0, start=wstart), Case(isa, text, fill=0xFF, start=wstart)]
-            outs = [acc.run(c) for c in cases]
-            acc.transition(len(cases))
-            rows = []
-            for l in ref.lines:
-                if l.kind in ('data', 'fill', 'nop', 'ldi', 'jmp', 'brr', 'zero', 'zerountil'):
-                    rows.append({'file': l.file, 'line': l.lineno, 'instruction': R.render_stmt(l.stmt).strip(), 'addr': l.addr,
-                                 'bytes': '' if l.muted else l.bytes.hex()})
-            spec = {'type': 'formats', 'rows': rows, 'window_start': wstart}
-            msg = check_formats(spec, outs)
-            if msg:
-                acc.violation(cases, spec, msg, outs)
-            gap = bool(ref.mem) and (len(ref.mem) != max(ref.mem) - min(ref.mem) + 1)
-            nt = gap or bool(ref.muted_mem) or any(l.size > 6 for l in ref.lines)
-            for f in FORMATS:
-                acc.judge(clause=f, nontrivial_key=(bits, h, f) if nt else None)
-            acc.judge(clause='listing-rows')
-            if len(h) == depth:
-                acc.sample({'address_bits': bits, 'program': text, 'memory_map': {hex(a): b for a, b in sorted(ref.mem.items())}})
+            examine(acc, isa, params, bits, h, files, len(h) == depth)
+        if bits == 16:
+            mute_nesting(acc, isa, params, bits, idx, n, q)
+
+
+def mute_nesting(acc, isa, params, bits, idx, n, q):
+    """#mute / #unmute are counted; an included file starts with the count of its #include line and hands its own count back.  Every
+    history over {#mute, #unmute, a byte, an include of a plain file, of a file that unmutes, of a file that mutes} up to depth 5 (6)."""
+    inc_bodies = {'plain': [], 'unmutes': [('unmute',)], 'mutes': [('mute',)]}
+
+    def build(h):
+        files = {}
+        stmts = []
+        for i, sym in enumerate(h):
+            if sym in inc_bodies:
+                name = f'n{i}.asm'
+                files[name] = [('data', 1, [0xB0 + i])] + inc_bodies[sym] + [('data', 1, [0xC0 + i, 0xC1])]
+                stmts.append(('include', name))
+            elif sym == 'byte':
+                stmts.append(('data', 1, [0x41 + i]))
+            else:
+                stmts.append((sym,))
+        stmts.append(('data', 1, [0xEE]))
+        files['main.asm'] = stmts
+        return files
+
+    alphabet = ['mute', 'unmute', 'byte', 'plain', 'unmutes', 'mutes']
+    depth = 5 if q else 6
+    for h in histories(alphabet, depth, idx, n):
+        if 'mute' not in h and 'mutes' not in h:
+            continue
+        examine(acc, isa, params, ('nest', bits), h, build(h), len(h) == depth and h[0] == 'mute' and h[-1] == 'unmute')
+
+
+def examine(acc, isa, params, bits, h, files, sample):
+    ref = R.assemble(params, files)
+    if ref.status != 'OK':
+        if ref.status == 'DC':
+            acc.dc(ref.reason)
+        return
+    acc.state((bits, tuple(sorted(ref.mem.items()))))
+    text = R.render_files(files)
+    cases = [Case(isa, text, fill=0), Case(isa, text, fill=0xFF)] + [Case(isa, text, pretty=f) for f in FORMATS]
+    multi = [l for l in ref.lines if l.size > 1 and not l.muted]
+    wstart = multi[0].addr + 1 if multi else None          # strictly inside the first multi-byte statement
+    if wstart is not None:
+        cases += [Case(isa, text, fill=0, start=wstart), Case(isa, text, fill=0xFF, start=wstart)]
+    outs = [acc.run(c) for c in cases]
+    acc.transition(len(cases))
+    rows = []
+    for l in ref.lines:
+        if l.kind in ('data', 'fill', 'nop', 'ldi', 'jmp', 'brr', 'zero', 'zerountil'):
+            rows.append({'file': l.file, 'line': l.lineno, 'instruction': R.render_stmt(l.stmt).strip(), 'addr': l.addr,
+                         'bytes': '' if l.muted else l.bytes.hex()})
+    spec = {'type': 'formats', 'rows': rows, 'window_start': wstart}
+    msg = check_formats(spec, outs)
+    if msg:
+        acc.violation(cases, spec, msg, outs)
+    gap = bool(ref.mem) and (len(ref.mem) != max(ref.mem) - min(ref.mem) + 1)
+    nt = gap or bool(ref.muted_mem) or any(l.size > 6 for l in ref.lines)
+    for f in FORMATS:
+        acc.judge(clause=f, nontrivial_key=(bits, h, f) if nt else None)
+    acc.judge(clause='listing-rows')
+    if sample:
+        acc.sample({'address_bits': bits, 'program': text, 'memory_map': {hex(a): b for a, b in sorted(ref.mem.items())}})
 
 
 def judge(spec, outcomes):
